@@ -33,7 +33,7 @@ EXPLANATION = (
     "variable, a counter running down from len(.)-1 under >= 0, or a guard comparing the index with a length). C16.h: constant propagation "
     "of the step for water_table in {0,1}: no cell of the daily tables receives the constant None (stored as NaN). C16.i: month and day of "
     "a real date are completed to a date only with a leap mock year (own positive example). C16.j: the profile-deepening while loop makes "
-    "progress on every iteration (every path from the body's entry back to the test stores into the thickness column). C16.k: prepare_weather floors the ReferenceET column of the frame it returns at a positive value on every path (biomass accumulation divides by it), and no inplace=True method is applied to a selection of a frame anywhere (no effect under copy-on-write; own positive example). C16.l: the curve-number runoff quotient, whose denominator is the rain itself when the retention is 0 (curve number 100), is evaluated only under a strict comparison of the rain with the initial abstraction. NOT decided: numeric assert "
+    "progress on every iteration (every path from the body's entry back to the test stores into the thickness column). C16.k: prepare_weather floors the ReferenceET column of the frame it returns at a positive value on every path (biomass accumulation divides by it), and no inplace=True method is applied to a selection of a frame anywhere (no effect under copy-on-write; own positive example). C16.l: the curve-number runoff quotient, whose denominator is the rain itself when the retention is 0 (curve number 100), is evaluated only under a strict comparison of the rain with the initial abstraction. C16.m (no step beyond the window; abstract interpretation over 8 clock states, shared with C07.b): whenever the step just taken ends on or after the end date the termination test returns True - otherwise update_time reads one past the last entry of time_span and the run raises IndexError on the last day of a window that cuts a season. NOT decided: numeric assert "
     "failures, non-finite results from run-time values, pandas-internal errors.")
 
 L = frozenset
@@ -753,4 +753,6 @@ def run(chk, prog, tier):
     deepening_progress(chk, prog)
     et0_floor(chk, prog)
     runoff_quotient(chk, prog)
+    from .c07 import finished_at_window_end
+    finished_at_window_end(chk, prog, "C16.m")
     chk.exhaustive = True
